@@ -426,3 +426,15 @@ pub fn k5() -> OptionParser<(bool, Option<u32>, Option<u32>)> {
     let z = positional::<u32>("Z").optional();
     construct!(s, g, z).to_options()
 }
+
+// ---------------------------------------------------------------------------------------------
+// completion (C14): a hidden item next to visible ones
+
+/// visible switch and argument, hidden switch, positional
+pub fn hd() -> OptionParser<(bool, bool, Option<u32>, Option<u32>)> {
+    let a = short('a').long("alpha").switch();
+    let s = short('s').long("secret").switch().hide();
+    let b = short('b').long("beta").argument::<u32>("B").optional();
+    let x = positional::<u32>("X").optional();
+    construct!(a, s, b, x).to_options()
+}
